@@ -35,6 +35,12 @@ TOUCH = [
     ("same-square", [(0, 0), (4, 0), (4, 4), (0, 4)], [(0, 0), (4, 0), (4, 4), (0, 4)]),
     ("inner-corner", [(0, 0), (2, 0), (2, 2), (0, 2)], [(0, 0), (4, 0), (4, 4), (0, 4)]),
     ("cross-through-vertices", [(2, -2), (6, 2), (2, 6), (-2, 2)], [(0, 0), (4, 0), (4, 4), (0, 4)]),
+    # an edge of the curve runs from one vertex of a non-convex shape to another, through the outside
+    ("chord-over-notch", [(0, 0), (2, 1), (1, 2)], [(0, 0), (2, 0), (2, 1), (1, 1), (1, 2), (0, 2)]),
+    ("chord-over-notch-2", [(2, 1), (1, 2), (0, 0)], [(0, 0), (2, 0), (2, 1), (1, 1), (1, 2), (0, 2)]),
+    # ... and through the inside of a hole: the diagonal of the removed square
+    ("diagonal-of-hole", [(0, 0), (2, -1), (1, 1)], [(0, 0), (0, 1), (1, 1), (1, 0)]),
+    ("chord-edge-midpoints", [("1/2", "1/2"), ("3/2", 1), (1, "3/2")], [(0, 0), (2, 0), (2, 1), (1, 1), (1, 2), (0, 2)]),
 ]
 
 
@@ -52,6 +58,10 @@ def cases(tier, seed):
         vs = progs.p_shapes(v, progs.QUICK_P) + progs.pc_shapes(v, progs.QUICK_PC)
         for a in vs:
             specs.append({"id": "in:%s" % al.expr_id(a), "A": a, "Bs": vs})
+    for t in TOUCH:
+        a, b = ["V", [list(p) for p in t[2]]], ["V", [list(p) for p in t[1]]]
+        specs.append({"id": "touch:" + t[0], "A": a, "Bs": [b, ["~", b]]})
+        specs.append({"id": "touch~:" + t[0], "A": ["~", a], "Bs": [b, ["~", b]]})
     warm = [["WL", "P.%s#int" % n] for n in al.P_ORDER]
     for a in warm:
         specs.append({"id": "in:%s" % al.expr_id(a), "A": a, "Bs": warm + progs.p_shapes(names=["big", "inner", "far", "sqA"])})
